@@ -24,6 +24,9 @@ pub struct FileGame {
     /// no interior payoffs, zero constant): the library result must then be reproduced bit for bit
     pub exact: bool,
     pub features: Vec<&'static str>,
+    /// Gambit files: both players' total payoffs (interior + terminal) on every root-to-leaf path,
+    /// as written into the file
+    pub totals: Vec<(f64, f64)>,
 }
 
 pub fn quote(s: &str) -> String {
@@ -169,7 +172,7 @@ pub fn write_json(rng: &mut Rng, tree: &HNode) -> FileGame {
     }
     let mut text = String::new();
     rec(rng, &canon, &mut text);
-    FileGame { exact: all_exact(&canon), tree: canon, constant: 0.0, text, format: Format::Json, features: vec!["json"] }
+    FileGame { exact: all_exact(&canon), tree: canon, constant: 0.0, text, format: Format::Json, features: vec!["json"], totals: Vec::new() }
 }
 
 // ---------------------------------------------------------------------------------------------
@@ -202,11 +205,17 @@ pub struct EfgOpts {
     pub commas: bool,
     pub comment: bool,
     pub cross_player_number_names: bool,
+    /// an outcome whose payoffs are stated at one node is attached by number only at the other
+    /// interior nodes that use it (the format allows it)
+    pub by_reference: bool,
+    /// INVALID file: one interior node (below a branching) carries an outcome with a clearly
+    /// non-zero pair sum that the terminals below it do not compensate: not constant sum
+    pub uncompensated: bool,
 }
 
 impl EfgOpts {
     pub fn plain() -> EfgOpts {
-        EfgOpts { constant: 0.0, interior: false, share_outcomes: false, naming: Naming::Named, decimal_probs: false, shuffle_actions: false, outcome_names: false, commas: false, comment: false, cross_player_number_names: false }
+        EfgOpts { constant: 0.0, interior: false, share_outcomes: false, naming: Naming::Named, decimal_probs: false, shuffle_actions: false, outcome_names: false, commas: false, comment: false, cross_player_number_names: false, by_reference: false, uncompensated: false }
     }
 
     pub fn random(rng: &mut Rng, dyadic: bool) -> EfgOpts {
@@ -221,6 +230,8 @@ impl EfgOpts {
             commas: rng.chance(0.4),
             comment: rng.chance(0.3),
             cross_player_number_names: rng.chance(0.15),
+            by_reference: rng.chance(0.5),
+            uncompensated: false,
         }
     }
 }
@@ -237,6 +248,13 @@ struct EfgWriter<'a> {
     next_outcome: u64,
     features: Vec<&'static str>,
     exact: bool,
+    totals: Vec<(f64, f64)>,
+    /// interior occurrences of outcomes: (byte range of the payoff list incl. leading space, outcome)
+    interior_sites: Vec<(usize, usize, u64)>,
+    terminal_outcomes: std::collections::HashSet<u64>,
+    /// interior pairs already stated: (outcome, da, db)
+    stated: Vec<(u64, f64, f64)>,
+    uncompensated_done: bool,
 }
 
 fn num(x: f64) -> String {
@@ -273,11 +291,57 @@ impl EfgWriter<'_> {
         }
     }
 
-    /// writes the node; returns the semantic node. `acc` = payoffs already granted on the path
-    fn node(&mut self, n: &HNode, acc: (f64, f64)) -> HNode {
+    /// remember where the payoff list of an interior outcome was written (the line just pushed)
+    fn note_site(&mut self, site: Option<u64>, interior: &str) {
+        if let Some(o) = site {
+            // span of everything after the outcome number (optional name and the payoff list), up
+            // to the newline that ends the line
+            let end = self.out.len() - 1;
+            let start = end - interior.len() + o.to_string().len();
+            self.interior_sites.push((start, end, o));
+        }
+    }
+
+    /// By-reference outcomes: for every outcome used at several places keep the payoff list at one
+    /// place only (a terminal if there is one, else a random interior occurrence) and drop it at
+    /// most of the other interior occurrences.
+    fn strip_references(&mut self) {
+        let mut by_outcome: HashMap<u64, Vec<usize>> = HashMap::new();
+        for (i, (_, _, o)) in self.interior_sites.iter().enumerate() {
+            by_outcome.entry(*o).or_default().push(i);
+        }
+        let mut drop: Vec<usize> = Vec::new();
+        let mut keys: Vec<u64> = by_outcome.keys().cloned().collect();
+        keys.sort();
+        for o in keys {
+            let sites = &by_outcome[&o];
+            let keep = if self.terminal_outcomes.contains(&o) { usize::MAX } else { sites[self.rng.below(sites.len())] };
+            for s in sites {
+                if *s != keep && self.rng.chance(0.7) {
+                    drop.push(*s);
+                }
+            }
+        }
+        if drop.is_empty() {
+            return;
+        }
+        drop.sort_by(|a, b| self.interior_sites[*b].0.cmp(&self.interior_sites[*a].0));
+        for i in drop {
+            let (start, end, _) = self.interior_sites[i];
+            self.out.replace_range(start..end, "");
+        }
+        self.features.push("outcome-by-reference");
+    }
+
+    /// writes the node; returns the semantic node. `acc` = payoffs already granted on the path and
+    /// compensated at the terminals; `extra` = payoffs granted on the path that are NOT compensated
+    /// (invalid files only); `branched` = some ancestor has several children
+    fn node(&mut self, n: &HNode, acc: (f64, f64), extra: (f64, f64), branched: bool) -> HNode {
         // interior payoff at this node?
         let mut acc = acc;
+        let mut extra = extra;
         let mut interior = String::from("0");
+        let mut site: Option<u64> = None;
         if self.opts.interior && !matches!(n, HNode::Term(_)) && self.rng.chance(0.3) {
             let da = *self.rng.pick(&[0.5, -1.0, 2.0, 0.25]);
             let db = *self.rng.pick(&[0.5, -1.0, 2.0, -0.25]);
@@ -285,10 +349,28 @@ impl EfgWriter<'_> {
             acc = (acc.0 + da, acc.1 + db);
             let pay = self.payoffs(da, db);
             interior = if self.opts.outcome_names && matches!(n, HNode::Player { .. }) { format!("{} \"out{}\" {}", o, o, pay) } else { format!("{} {}", o, pay) };
+            site = Some(o);
+            self.stated.push((o, da, db));
             self.exact = false;
             if !self.features.contains(&"interior-payoffs") {
                 self.features.push("interior-payoffs");
             }
+        } else if self.opts.uncompensated && !self.uncompensated_done && branched && !matches!(n, HNode::Term(_)) && self.rng.chance(0.4) {
+            // an outcome with a clearly non-zero pair sum that nothing below compensates
+            let known: Vec<(u64, f64, f64)> = self.stated.iter().cloned().filter(|(_, a, b)| (a + b).abs() >= 0.5).collect();
+            let (o, da, db, by_ref) = if !known.is_empty() && self.rng.chance(0.7) {
+                let k = known[self.rng.below(known.len())];
+                (k.0, k.1, k.2, self.rng.chance(0.7))
+            } else {
+                let (da, db) = *self.rng.pick(&[(1.0, 1.0), (0.5, 0.25), (-3.0, 1.0), (2.0, -1.0)]);
+                let o = self.next_outcome;
+                self.next_outcome += 1;
+                (o, da, db, false)
+            };
+            extra = (extra.0 + da, extra.1 + db);
+            interior = if by_ref { format!("{}", o) } else { format!("{} {}", o, self.payoffs(da, db)) };
+            self.uncompensated_done = true;
+            self.features.push(if by_ref { "uncompensated-interior-outcome-by-reference" } else { "uncompensated-interior-outcome-stated" });
         }
         match n {
             HNode::Term(u) => {
@@ -300,6 +382,8 @@ impl EfgWriter<'_> {
                 if !short_number(a) || !short_number(b) {
                     self.exact = false;
                 }
+                self.totals.push((acc.0 + extra.0 + a, acc.1 + extra.1 + b));
+                self.terminal_outcomes.insert(o);
                 if self.opts.outcome_names {
                     self.out.push_str(&format!("t \"\" {} \"out{}\" {}\n", o, o, pay));
                 } else {
@@ -344,7 +428,9 @@ impl EfgWriter<'_> {
                     list.push_str(&format!("{} {} ", quote(&outcome_name(k)), p));
                 }
                 self.out.push_str(&format!("c \"\" {} {{ {}}} {}\n", number, list, interior));
-                let kids = outs.iter().map(|(w, k)| (*w, self.node(k, acc))).collect();
+                self.note_site(site, &interior);
+                let b2 = branched || outs.len() > 1;
+                let kids = outs.iter().map(|(w, k)| (*w, self.node(k, acc, extra, b2))).collect();
                 HNode::Chance { info: Some(format!("#{}", number)), outs: kids }
             }
             HNode::Player { p, info, acts } => {
@@ -361,9 +447,11 @@ impl EfgWriter<'_> {
                     None => String::new(),
                 };
                 self.out.push_str(&format!("p \"\" {} {}{} {{ {}}} {}\n", pi + 1, number, name_part, list, interior));
+                self.note_site(site, &interior);
+                let b2 = branched || acts.len() > 1;
                 let mut kids: Vec<Option<HNode>> = vec![None; acts.len()];
                 for i in order {
-                    kids[i] = Some(self.node(&acts[i].1, acc));
+                    kids[i] = Some(self.node(&acts[i].1, acc, extra, b2));
                 }
                 let mut sem: Vec<(String, HNode)> = acts.iter().zip(kids).map(|((a, _), k)| (a.clone(), k.unwrap())).collect();
                 sem.sort_by(|a, b| a.0.cmp(&b.0));
@@ -470,12 +558,20 @@ pub fn write_efg(rng: &mut Rng, tree: &HNode, opts: &EfgOpts) -> FileGame {
         next_outcome: 1,
         features,
         exact: opts.constant == 0.0,
+        totals: Vec::new(),
+        interior_sites: Vec::new(),
+        terminal_outcomes: std::collections::HashSet::new(),
+        stated: Vec::new(),
+        uncompensated_done: false,
     };
     w.out.push_str(&format!("EFG 2 R {} {{ \"Player 1\" \"Player 2\" }}\n", quote("generated \"game\"")));
     if opts.comment {
         w.out.push_str("\"a comment\"\n");
     }
     w.out.push('\n');
-    let sem = w.node(tree, (0.0, 0.0));
-    FileGame { tree: sem, constant: opts.constant, text: w.out, format: Format::Efg, exact: w.exact, features: w.features }
+    let sem = w.node(tree, (0.0, 0.0), (0.0, 0.0), false);
+    if opts.by_reference {
+        w.strip_references();
+    }
+    FileGame { tree: sem, constant: opts.constant, text: w.out, format: Format::Efg, exact: w.exact, features: w.features, totals: w.totals }
 }
